@@ -40,7 +40,7 @@ THEOREM_PRED = {'C10_solved_iff': 'IsProblemSolved', 'C10_indiffInfOrUnb_iff': '
                 'C10_counterexample_infeasible': 'IsProblemInfeasible',
                 'C10_solvedOrFeasible': 'IsProblemSolvedOrFeasible', 'C10_counterexample_solvedOrFeasible': 'IsProblemSolvedOrFeasible',
                 'C10_objective': 'objective', 'C10_counterexample_objective': 'objective', 'C10_no_objective': 'objective',
-                'C10_report_model_eq_generated': 'objective', 'C10_code_echo': 'code', 'C10_alt': 'altsol', 'C10_chain_forwards_code': 'altsol', 'C10_feasrelax': 'message:', 'C10_gen_msgTable': 'message', 'C10_msg': 'message', 'C10_gen_suffix_guards': 'suffix:', 'C10_gen_reg': 'table', 'C10_gen_add': 'table', 'C10_reg': 'table', 'C10_addResults': 'table', 'C10_kappa': 'suffix:kappa', 'C10_unbdd': 'suffix:unbdd', 'C10_dunbdd': 'suffix:dunbdd', 'C10_iis': 'suffix:iis',
+                'C10_report_model_eq_generated': 'objective', 'C10_code_echo': 'code', 'C10_alt': 'altsol', 'C10_chain_forwards_code': 'altsol', 'C10_feasrelax': 'message:', 'C10_gen_msgTable': 'message', 'C10_msg': 'message', 'C10_gen_suffix_guards': 'suffix:', 'C10_gen_reg': 'table', 'C10_gen_add': 'table', 'C10_reg': 'table', 'C10_addResults': 'table', 'C10_kappa': 'suffix:kappa', 'C10_unbdd': 'suffix:unbdd', 'C10_dunbdd': 'suffix:dunbdd', 'C10_iis': 'suffix:iis', 'C10_solcheck': 'message:chk', 'C10_extras_eq_generated': 'suffix:', 'C10_vectors_echo': 'vectors',
                 'C10_enum': 'enum', 'C10_registry': 'table', 'C10_ranges': 'table', 'C10_rangeRows': 'table',
                 'C10_predicate_inclusions': 'Is'}
 
@@ -177,7 +177,7 @@ def run(ck):
     if rc2 != 0:
         translator_ok = False
         out, err = out + out2, err + err2
-    N_THEOREMS = 58
+    N_THEOREMS = 62
     proof_ok, failing = False, []
     if translator_ok:
         proof_ok, failing = ck.proof_stage('MpVerif.C10.Props', 'MpVerif/C10/Props.lean', 'C10_',
@@ -542,26 +542,29 @@ def run(ck):
             # round 3: message variants and suffixes that depend on the classification (documented classes, not the model)
             fl = o['flags']
             has = lambda *names: all(x in o['sufs'] for x in names)
-            exp = {'fr': int(want_shown and o_fr != 0 and nobj_model == 1), 'orig': int(want_shown and o_fr != 0 and nobj_model == 1 and bool(fl & 1)),
+            # the automatic solution check: the scripted solution violates the model iff primal values and a (wrong) objective value
+            # are returned; FlatBackend::GetSolution declares infeasible codes "known infeasible" and the check is skipped
+            viol = int(bool(o['primal']) and o['nobj_in'] >= 1 and nobj_model >= 1 and 'sol:chk:mode=0' not in mopts)
+            exp = {'chk': int(viol and k != 'infeasible'), 'fr': int(want_shown and o_fr != 0 and nobj_model == 1), 'orig': int(want_shown and o_fr != 0 and nobj_model == 1 and bool(fl & 1)),
                    'kappa': int(k == 'solved' and o_kappa != 0),
                    'unbdd': int(bool(o_rays & 1) and k in ('unbounded-feas', 'unbounded-nofeas', 'limit-inf-unb')),
                    'dunbdd': int(bool(o_rays & 2) and k in ('infeasible', 'limit-inf-unb')),
                    'iis': int(o_iis != 0 and k in ('infeasible', 'unbounded-feas', 'unbounded-nofeas', 'limit-inf-unb'))}
-            got = {'fr': o['fr'], 'orig': o['orig'], 'kappa': int(has('obj.kappa', 'prob.kappa')), 'unbdd': int(has('var.unbdd')),
+            got = {'chk': int('warnings' in o['order'].split(',')), 'fr': o['fr'], 'orig': o['orig'], 'kappa': int(has('obj.kappa', 'prob.kappa')), 'unbdd': int(has('var.unbdd')),
                    'dunbdd': int(has('con.dunbdd')), 'iis': int(has('var.iis', 'con.iis'))}
             for key in exp:
                 hist.setdefault('extras_true', {}).setdefault(key, 0)
                 hist['extras_true'][key] += got[key]
                 if exp[key] != got[key]:
-                    rep_fail.setdefault(('message:%s' if key in ('fr', 'orig') else 'suffix:%s') % key + (':missing' if exp[key] else ':unexpected'), []).append((o['code'], tag))
-            xops.append('extras %d %d %d %d %d %d %d %d' % (o['code'], nobj_model, int(o_fr != 0), int(o_fr != 0 and bool(fl & 1)), int(o_kappa != 0),
-                                                               o_rays & 1, (o_rays >> 1) & 1, int(o_iis != 0)))
+                    rep_fail.setdefault(('message:%s' if key in ('fr', 'orig', 'chk') else 'suffix:%s') % key + (':missing' if exp[key] else ':unexpected'), []).append((o['code'], tag))
+            xops.append('extras %d %d %d %d %d %d %d %d %d' % (o['code'], nobj_model, int(o_fr != 0), int(o_fr != 0 and bool(fl & 1)), int(o_kappa != 0),
+                                                                  o_rays & 1, (o_rays >> 1) & 1, int(o_iis != 0), viol))
             # order of the message pieces (ReportSolution2AMPL step table of the model)
             naltrep = o['nalt_in'] if want_multi else 0
             mkops.append('markers %d %d %d %d %d %d %d %d %d' % (o['code'], nobj_model, int(o_fr != 0), int(o_fr != 0 and bool(fl & 1)), int(o_kappa != 0),
                                                                  int(bool(fl & 2)), naltrep, int(not (fl & 4)), int('warnings' in o['order'].split(','))))
             mkcans.append(mkops[-1] + ' | ' + o['order'])
-            xcans.append(xops[-1] + ' | fr=%d orig=%d kappa=%d unbdd=%d dunbdd=%d iis=%d' % tuple(got[x] for x in ('fr', 'orig', 'kappa', 'unbdd', 'dunbdd', 'iis')))
+            xcans.append(xops[-1] + ' | fr=%d orig=%d kappa=%d unbdd=%d dunbdd=%d iis=%d chk=%d' % tuple(got[x] for x in ('fr', 'orig', 'kappa', 'unbdd', 'dunbdd', 'iis', 'chk')))
             # NB the code tests `exportKappa() && 1` (logical and): the message line appears for every non-zero alg:kappa,
             # not only when bit 1 is set as the option text says (side finding, not part of C10; see design_notes/coverage/C10.md)
             if o['kappamsg'] != int(o_kappa != 0) or o['extra'] != int(bool(fl & 2)):
@@ -686,7 +689,7 @@ def run(ck):
                      ['%s=%d' % (p, b) for p in PREDS for b in (0, 1)] +
                      ['report.%s=%d' % (k, b) for k in ('objShown', 'primal', 'dual', 'objval', 'solStub') for b in (0, 1)] +
                      ['report.alt=' + v for v in ('none', 'one', 'several')] +
-                     ['extras.%s=%d' % (k, b) for k in ('fr', 'orig', 'kappa', 'unbdd', 'dunbdd', 'iis') for b in (0, 1)])
+                     ['extras.%s=%d' % (k, b) for k in ('fr', 'orig', 'kappa', 'unbdd', 'dunbdd', 'iis', 'chk') for b in (0, 1)])
     ck.cov['model_arms_never_taken'] = [a for a in expected_arms if drv and not arms.get(a)]
     covjson = os.path.join(VERIF, 'design_notes', 'coverage', 'C10.json')
     if os.path.exists(covjson):      # measured in the last VERIF_COVERAGE=1 run (committed file; not recomputed here)
